@@ -78,7 +78,15 @@ def c17_witness(role):
         if "successful-read" in role:
             spec = {"source": ".out = .a\n.after = true\n", "event": {"a": 5}}
             exp = {"outcome": "ok", "event_eq": {"out": {"Integer": "5"}}}
-        return spec, exp, {}
+            return spec, exp, {}
+        # the rejected read may be of a field, of the event root, or of metadata (get #0 is the runtime's root check)
+        return [(spec, exp, {}),
+                ({"source": "x = .\n.out = x\n.after = true\n", "event": {"a": 5}, "faults": {"get": [1]}},
+                 {"outcome": "ok", "event_has": ["after", "out"], "event_eq": {"out": "Null", "a": {"Integer": "5"}}}, {}),
+                ({"source": ".out = %a\n.after = true\n", "event": {"a": 5}, "faults": {"get": [1]}},
+                 {"outcome": "ok", "event_has": ["after", "out"], "event_eq": {"out": "Null", "a": {"Integer": "5"}}}, {}),
+                ({"source": "x = %\n.out = x\n.after = true\n", "event": {"a": 5}, "faults": {"get": [1]}},
+                 {"outcome": "ok", "event_has": ["after", "out"], "event_eq": {"out": "Null", "a": {"Integer": "5"}}}, {})]
     if "AssignTarget[External]" in role:
         spec = {"source": ".x = 1\n.after = true\n", "event": {"a": 5}, "faults": {"insert": [0]}}
         exp = {"outcome": "ok", "event_has": ["after"], "event_lacks": ["x"], "event_eq": {"a": {"Integer": "5"}}}
@@ -235,6 +243,11 @@ def check(prop, ev, bounds=None, cvc5_cross=False):
                 res = [(a, b, {}) for a, b in rw] if rw else None
             else:
                 res = make_witness(o, model, lab)
+                if res is not None and role.endswith("AssignVariant[Infallible]:infallible-error"):
+                    # the order of the two stores is observable when the err target lies inside the ok target
+                    res = (res if isinstance(res, list) else [res]) + [
+                        ({"source": ".res, .res.error = 1 / .zero\n.after = true\n", "event": {"zero": 0}}, {"outcome": "ok", "types_sound": True, "event_has": ["after", "res"]}, {}),
+                        ({"source": "r, r.error = 1 / .zero\n.res = r\n", "event": {"zero": 0}}, {"outcome": "ok", "types_sound": True, "event_has": ["res"]}, {})]
         except Exception as e:  # noqa
             inconc.append(f"{role}: witness builder failed: {e}")
             continue
